@@ -4,7 +4,7 @@
    Exp/ExportDoc.v (the supported schema in canonical order, and the tolerated differences). *)
 From Coq Require Import List NArith ZArith Bool.
 From RPFT Require Import Base.Sexp Base.PyStr Base.Result Base.Json Gen.Tables
-  Exp.Load Exp.Render Exp.ExportDoc Exp.ExportFacts Exp.CaseFacts.
+  Exp.Load Exp.Render Exp.ExportDoc Exp.ExportFacts Exp.CaseFacts Exp.GroupFacts Exp.ExitFacts.
 Import ListNotations.
 
 (* ---- per-class round trips: render (load (emit x)) = norm (emit x) *)
@@ -13,17 +13,37 @@ Theorem C05_exit_roundtrip : forall x,
 Proof. exact exit_roundtrip. Qed.
 Print Assumptions C05_exit_roundtrip.
 
-(* every action kind of action_map, pass-through kinds with arbitrary members included *)
+(* every action kind of action_map, pass-through kinds with arbitrary members included.
+   [typed_field_ok a] is [True] on a tree that carries the repair "a typed contact field
+   reference renders its own type" (probe fieldref_renders_own_type, regenerated from the code
+   under check) and [untyped_field a] on a tree that does not: see the two corollaries. *)
 Theorem C05_action_roundtrip : forall a,
-  wf_action a -> untyped_field a ->
+  wf_action a -> typed_field_ok a ->
   bind (load_action (emit_action a)) render_action = Ok (norm_action (emit_action a)).
 Proof. exact action_roundtrip. Qed.
 Print Assumptions C05_action_roundtrip.
 
+(* the repaired tree: no restriction on field references *)
+Theorem C05_action_roundtrip_repaired :
+  fieldref_renders_own_type = true ->
+  forall a, wf_action a ->
+  bind (load_action (emit_action a)) render_action = Ok (norm_action (emit_action a)).
+Proof. exact action_roundtrip_repaired. Qed.
+Print Assumptions C05_action_roundtrip_repaired.
+
+(* either tree: field references without a (truthy) type *)
+Theorem C05_action_roundtrip_untyped : forall a,
+  wf_action a -> untyped_field a ->
+  bind (load_action (emit_action a)) render_action = Ok (norm_action (emit_action a)).
+Proof. exact action_roundtrip_untyped. Qed.
+Print Assumptions C05_action_roundtrip_untyped.
+
 Example C05_action_roundtrip_nonvacuous :
   let a := XSend (s1 1) (s1 2) [s1 3; JStr []] (JArr []) (Some (JBool false)) None None in
-  wf_action a /\ untyped_field a /\ norm_action (emit_action a) <> emit_action a.
-Proof. cbn. split; [intros t H; discriminate H|]. split; [exact I|]. intros H. vm_compute in H. discriminate H. Qed.
+  let b := XSetField (s1 1) {| xf_name := s1 65; xf_key := s1 97; xf_type := Some (s1 116) |} (s1 53) in
+  (wf_action a /\ typed_field_ok a /\ untyped_field a /\ norm_action (emit_action a) <> emit_action a)
+  /\ (wf_action b /\ ~ untyped_field b /\ (fieldref_renders_own_type = true -> typed_field_ok b)).
+Proof. exact action_roundtrip_nonvacuous. Qed.
 Print Assumptions C05_action_roundtrip_nonvacuous.
 
 Theorem C05_trigger_roundtrip : forall t,
@@ -51,15 +71,120 @@ Theorem C05_render_keys_ok : render_keys_ok = true.
 Proof. exact render_keys_ok_true. Qed.
 Print Assumptions C05_render_keys_ok.
 
-(* ---- refutations: the full statement is false of the faithful model *)
-Theorem C05_typed_field_refuted : roundtrip w_typed_field <> Ok (norm w_typed_field).
-Proof. exact typed_field_refuted. Qed.
-Print Assumptions C05_typed_field_refuted.
+(* ---- the two repaired defects: the witness documents that recorded them are reproduced exactly
+   when the tree under check carries the repair (regenerated probes) *)
+Theorem C05_typed_field_witness :
+  if fieldref_renders_own_type then roundtrip w_typed_field = Ok (norm w_typed_field)
+  else roundtrip w_typed_field <> Ok (norm w_typed_field).
+Proof. exact typed_field_witness. Qed.
+Print Assumptions C05_typed_field_witness.
 
-Theorem C05_group_attrs_refuted : roundtrip w_group_attrs <> Ok (norm w_group_attrs).
-Proof. exact group_attrs_refuted. Qed.
-Print Assumptions C05_group_attrs_refuted.
+Theorem C05_group_attrs_witness :
+  if validate_keeps_group_attrs then roundtrip w_group_attrs = Ok (norm w_group_attrs)
+  else roundtrip w_group_attrs <> Ok (norm w_group_attrs).
+Proof. exact group_attrs_witness. Qed.
+Print Assumptions C05_group_attrs_witness.
 
+(* ---- the container's own groups (repair "validate() keeps query/status/system/count of the
+   container's groups").  [kept_group g] is [g] on a tree that carries the repair (probe
+   validate_keeps_group_attrs, regenerated from the code under check) and Group(name, uuid) on a
+   tree that does not; likewise [kept_top] on the document side. *)
+
+(* a top-level group with any subset of its optional attributes, null or not: per-class round trip *)
+Theorem C05_top_group_roundtrip : forall g,
+  rmap render_group (load_group (emit_top g)) = Ok (norm_group (emit_top g)).
+Proof. exact top_group_roundtrip. Qed.
+Print Assumptions C05_top_group_roundtrip.
+
+Theorem C05_group_tables_ok : group_tables_ok = true.
+Proof. exact group_tables_ok_true. Qed.
+Print Assumptions C05_group_tables_ok.
+
+(* validate(), whatever else the container holds (flows, campaigns, triggers with any number of
+   references to the same or other groups): its own groups come first, in order; groups that are
+   only referenced follow *)
+Theorem C05_validate_keeps_groups : forall c c',
+  own_groups_ok (ct_groups c) -> validate c = Ok c' ->
+  exists referenced, ct_groups c' = map kept_group (ct_groups c) ++ referenced.
+Proof. exact validate_keeps_groups. Qed.
+Print Assumptions C05_validate_keeps_groups.
+
+Theorem C05_validate_keeps_groups_repaired :
+  validate_keeps_group_attrs = true ->
+  forall c c', own_groups_ok (ct_groups c) -> validate c = Ok c' ->
+  exists referenced, ct_groups c' = ct_groups c ++ referenced.
+Proof. exact validate_keeps_groups_repaired. Qed.
+Print Assumptions C05_validate_keeps_groups_repaired.
+
+Example C05_validate_keeps_groups_nonvacuous :
+  exists c c', from_dict w_groups_mixed = Ok c /\ own_groups_ok (ct_groups c) /\ validate c = Ok c'
+               /\ length (ct_groups c) = 2 /\ length (ct_groups c') = 3
+               /\ roundtrip w_groups_mixed
+                  = Ok (if validate_keeps_group_attrs then
+                          upd k_groups (fun g => match g with JArr l => JArr (l ++ [JObj [(k_name, s1 82); (k_uuid, s1 114)]]) | _ => g end)
+                              (norm w_groups_mixed)
+                        else upd k_groups (fun _ => JArr [JObj [(k_name, s1 71); (k_uuid, s1 103)];
+                                                          JObj [(k_name, s1 72); (k_uuid, s1 104)];
+                                                          JObj [(k_name, s1 82); (k_uuid, s1 114)]])
+                                 (norm w_groups_mixed)).
+Proof. exact validate_keeps_groups_nonvacuous. Qed.
+Print Assumptions C05_validate_keeps_groups_nonvacuous.
+
+(* whole-document theorem for exports that consist of groups: from_dict -> validate -> render *)
+Theorem C05_groups_doc_roundtrip : forall gs fields site version,
+  tops_ok gs -> truthy site = true ->
+  roundtrip (emit (groups_doc gs fields site version))
+  = Ok (norm (emit (groups_doc (map kept_top gs) fields site version))).
+Proof. exact groups_doc_roundtrip. Qed.
+Print Assumptions C05_groups_doc_roundtrip.
+
+Theorem C05_groups_doc_roundtrip_repaired :
+  validate_keeps_group_attrs = true ->
+  forall gs fields site version, tops_ok gs -> truthy site = true ->
+  roundtrip (emit (groups_doc gs fields site version)) = Ok (norm (emit (groups_doc gs fields site version))).
+Proof. exact groups_doc_roundtrip_repaired. Qed.
+Print Assumptions C05_groups_doc_roundtrip_repaired.
+
+Example C05_groups_doc_nonvacuous :
+  tops_ok ex_tops /\ truthy (s1 115) = true
+  /\ norm (emit (groups_doc ex_tops [] (s1 115) (s1 49))) <> emit (groups_doc ex_tops [] (s1 115) (s1 49))
+  /\ own_groups_ok (map lower_top ex_tops).
+Proof. exact groups_doc_nonvacuous. Qed.
+Print Assumptions C05_groups_doc_nonvacuous.
+
+(* ---- exits shared by categories (repair "an exit shared by several categories of a router is
+   rendered once"; probe router_lists_shared_exit_once) *)
+Theorem C05_shared_exit_witness :
+  if router_lists_shared_exit_once then roundtrip w_shared_exit = Ok (norm w_shared_exit)
+  else roundtrip w_shared_exit <> Ok (norm w_shared_exit).
+Proof. exact shared_exit_witness. Qed.
+Print Assumptions C05_shared_exit_witness.
+
+(* the repaired get_exits never lists an exit twice, whatever the categories reference ... *)
+Theorem C05_uniq_exits_once : forall l, exits_once (uniq_exits l).
+Proof. exact uniq_exits_once. Qed.
+Print Assumptions C05_uniq_exits_once.
+
+Theorem C05_node_exits_once_repaired :
+  router_lists_shared_exit_once = true -> forall n, n_router n <> None -> exits_once (exits_of n).
+Proof. exact node_exits_once_repaired. Qed.
+Print Assumptions C05_node_exits_once_repaired.
+
+(* ... and changes nothing for a router whose categories have an exit each (on either tree) *)
+Theorem C05_distinct_exits_unchanged : forall n r,
+  n_router n = Some r -> exits_once (map c_exit (categories_of r)) -> exits_of n = map c_exit (categories_of r).
+Proof. exact distinct_exits_unchanged. Qed.
+Print Assumptions C05_distinct_exits_unchanged.
+
+Example C05_exits_once_nonvacuous :
+  n_router ex_shared_node <> None
+  /\ ~ exits_once (map c_exit (categories_of (match n_router ex_shared_node with Some r => r | None => RRandom JNull [] end)))
+  /\ uniq_exits [ex_exit 49; ex_exit 50; ex_exit 49] = [ex_exit 49; ex_exit 50]
+  /\ exits_once [ex_exit 49; ex_exit 50] /\ uniq_exits [ex_exit 49; ex_exit 50] = [ex_exit 49; ex_exit 50].
+Proof. exact exits_once_nonvacuous. Qed.
+Print Assumptions C05_exits_once_nonvacuous.
+
+(* ---- refutations: the full statement is false of the faithful model (open findings) *)
 Theorem C05_category_order_refuted : roundtrip w_category_order <> Ok (norm w_category_order).
 Proof. exact category_order_refuted. Qed.
 Print Assumptions C05_category_order_refuted.
@@ -68,9 +193,6 @@ Theorem C05_exit_order_refuted : roundtrip w_exit_order <> Ok (norm w_exit_order
 Proof. exact exit_order_refuted. Qed.
 Print Assumptions C05_exit_order_refuted.
 
-Theorem C05_shared_exit_refuted : roundtrip w_shared_exit <> Ok (norm w_shared_exit).
-Proof. exact shared_exit_refuted. Qed.
-Print Assumptions C05_shared_exit_refuted.
 
 (* the control: the same router in canonical order comes back unchanged *)
 Theorem C05_canonical_control : roundtrip w_canonical = Ok (norm w_canonical) /\ norm w_canonical = w_canonical.
@@ -82,8 +204,8 @@ Theorem C05_witnesses_idempotent :
                     | Ok o => match roundtrip o with Ok o' => json_eqb o o' | Err _ => false end
                     | Err _ => false
                     end)
-          [w_typed_field; w_group_attrs; w_category_order; w_exit_order; w_shared_exit; w_canonical] = true.
-Proof. exact witnesses_idempotent. Qed.
+          [w_typed_field; w_group_attrs; w_groups_mixed; w_category_order; w_exit_order; w_shared_exit; w_canonical] = true.
+Proof. exact witnesses_idempotent'. Qed.
 Print Assumptions C05_witnesses_idempotent.
 
 (* router cases: every test type, every argument list its validator accepts *)
